@@ -110,6 +110,11 @@ def events_for(args):
                 pt = ec.Point(curve.curve, x, y) if (y * y - x * x * x - a * x - b) % p == 0 else None
                 if pt is None:
                     continue
+            elif kind == "foreign":
+                # a well-formed point object of ANOTHER curve over the same field (y^2 = x^3 + ax + b + 1), offered as a key for this one
+                pt = ec.PointJacobi(ec.CurveFp(p, a, b + 1, 1), x, y, 1)
+            elif kind == "foreign-aff":
+                pt = ec.Point(ec.CurveFp(p, a, b + 1, 1), x, y)
             else:
                 pt = ec.PointJacobi(curve.curve, x, y, 1)
             out = outcome(lambda: VerifyingKey.from_public_point(pt, curve, validate_point=True), curve)
@@ -180,6 +185,8 @@ def run(ctx):
         pairs = [(x, y, "jac") for (x, y) in onc] + [(x, y, "aff") for (x, y) in onc[:: 3]]
         grid = range(p) if not quick else sorted(set(rnd.sample(range(p), 25) + [0, 1, p - 1]))
         pairs += [(x, y, "jac") for x in grid for y in (grid if not quick else sorted(set(rnd.sample(range(p), 25) + [0, 1, p - 1])))]
+        other = toy.t_points(p, a, b + 1)
+        pairs += [(x, y, "foreign" if i % 2 else "foreign-aff") for i, (x, y) in enumerate(other[:: max(1, len(other) // (40 if quick else 400))])]
         pairs += [(p, 1, "jac"), (1, p, "jac"), (p + onc[0][0], onc[0][1], "jac"), (onc[0][0], onc[0][1] + p, "jac"), (-1, 5, "jac")]
         seen = set()
         uniq = []
